@@ -308,28 +308,42 @@ def trace_validate(module, pid, ndjson_path, cfg=None, overrides=False, shards=8
     n = len(lines)
     if n == 0:
         return 0, [], 0
-    shards = max(1, min(shards, n))
     wd = fresh(os.path.join(workdir(pid), "tv-" + module))
-    per = (n + shards - 1) // shards
-    procs = []
     if cfg is None:
         cfg = "SPECIFICATION TraceSpec\nCHECK_DEADLOCK FALSE\n"
     from concurrent.futures import ThreadPoolExecutor
-    parts = []
-    for i in range(shards):
-        chunk = lines[i * per:(i + 1) * per]
-        if not chunk:
-            continue
-        pth = os.path.join(wd, "part%d.ndjson" % i)
-        open(pth, "w").write("\n".join(chunk) + "\n")
-        parts.append((i, pth, len(chunk)))
+    # one TLC JVM per part; a part holds at most n/shards lines and at most PART_BYTES of NDJSON, so that the
+    # deserialised trace fits a fixed heap whatever the size of the trace file (the JVM default would be 25% of
+    # RAM per JVM: 16 of them were killed by the kernel on a 444 MB trace)
+    PART_BYTES = 6 << 20
+    per = (n + max(1, min(shards, n)) - 1) // max(1, min(shards, n))
+    parts, chunk, size = [], [], 0
+    def flush():
+        if chunk:
+            pth = os.path.join(wd, "part%d.ndjson" % len(parts))
+            open(pth, "w").write("\n".join(chunk) + "\n")
+            parts.append((len(parts), pth, len(chunk)))
+    for l in lines:
+        if chunk and (len(chunk) >= per or size + len(l) > PART_BYTES):
+            flush()
+            chunk, size = [], 0
+        chunk.append(l)
+        size += len(l) + 1
+    flush()
+    try:
+        avail = int([x for x in open("/proc/meminfo") if x.startswith("MemAvailable")][0].split()[1]) >> 20
+    except Exception:
+        avail = 16
+    pool = max(2, min(16, len(parts), avail // 4))
 
     def run(part):
         i, pth, cnt = part
         e = {"VERIF_TRACE": pth}
         if env:
             e.update(env)
-        r = tlc(module, cfg, pid + "/tvs%d" % i, workers=1, env=e, tags=("REJECT", "DONE"), overrides=overrides, timeout=timeout)
+        r = tlc(module, cfg, pid + "/tvs%d" % i, workers=1, env=e, tags=("REJECT", "DONE"), overrides=overrides, timeout=timeout, heap="3g")
+        if i >= 16:
+            shutil.rmtree(os.path.dirname(r.outpath), ignore_errors=True)
         done = [o for t, o in r.lines if t == "DONE"]
         if not done or int(done[-1]) != cnt:
             raise Infra("trace spec %s consumed %s of %d lines (shard %d); see %s" % (module, done, cnt, i, r.outpath))
@@ -337,7 +351,7 @@ def trace_validate(module, pid, ndjson_path, cfg=None, overrides=False, shards=8
 
     rejects = []
     states = 0
-    with ThreadPoolExecutor(max_workers=min(len(parts), 16)) as ex:
+    with ThreadPoolExecutor(max_workers=pool) as ex:
         for rej, r in ex.map(run, parts):
             rejects += rej
             states += r.distinct
